@@ -297,7 +297,10 @@ def history(ctx: Any) -> List[Ob]:
     rme = rec_f.params[0]
     st_h = [st for st in walk_local_ordered(rec_f.node) if isinstance(st, ast.Assign) and isinstance(st.targets[0], ast.Subscript) and self_attr(st.targets[0].value, rme) == '_history']
     ok_rec = len(st_h) == 1 and norm(st_h[0].targets[0].slice) == rec_f.params[1] and isinstance(st_h[0].value, ast.Tuple) and [norm(x) for x in st_h[0].value.elts] == [rec_f.params[2], rec_f.params[3]]
-    obs.append(ob(R, rec_f, st_h[0] if st_h else 'self._history[question] = (now, known_answers)', 'recording a question stores its time and its known answers under the question', ok_rec))
+    rcfg_h = cfg_of(rec_f.node)
+    st_nodes = [n for n in rcfg_h.nodes if n.kind == 'stmt' and any(n.ast is x for x in st_h)]
+    skip_h = rcfg_h.path_avoiding(rcfg_h.entry, lambda n: n is rcfg_h.exit, lambda n: n in st_nodes) if st_nodes else [rcfg_h.entry]
+    obs.append(ob(R, rec_f, st_h[0] if st_h else 'self._history[question] = (now, known_answers)', 'recording a question stores its time and its known answers under the question -- on every path (each sighting restarts the 999 ms window; a sighting that is skipped leaves the window counted from an earlier one)', ok_rec and skip_h is None, '' if skip_h is None else 'a path returns without storing the sighting'))
     # expiry of the history removes exactly the entries older than the window: each is tested on its own time (dict order is
     # the order of FIRST insertion -- re-recording a question does not move it -- so no shortcut through `the last entry`)
     ex = prog.func('zeroconf._history.QuestionHistory.async_expire')
